@@ -25,7 +25,7 @@ open NiftyVerif NiftyVerif.Gen.Ptw NiftyVerif.Expr
 
 section generic
 variable {K : Type} [Zero K] [Add K] [Sub K] [Mul K] [Div K] [Neg K] [OfScientific K]
-  [LT K] [DecidableLT K] [LE K] [DecidableLE K] [Transc K]
+  [LT K] [DecidableLT K] [LE K] [DecidableLE K] [Transc K] [Conj K]
 
 def AgreeOn (d : Dom) (ρ1 ρ2 : MVal K) : Prop := ∀ kn ∈ d, ρ1 kn.1 = ρ2 kn.1
 
@@ -70,6 +70,10 @@ theorem eval_congr (e : Ex K) : ∀ (ρ1 ρ2 : MVal K), AgreeOn e.inDom ρ1 ρ2 
   | quad d a iha => intro ρ1 ρ2 h; simp only [eval]; rw [iha _ _ h]
   | gauss data icov a iha => intro ρ1 ρ2 h; simp only [eval]; rw [iha _ _ h]
   | const en d v => intro ρ1 ρ2 h; rfl
+  | bil m na nb T a b iha ihb =>
+    intro ρ1 ρ2 h; simp only [eval]; rw [iha _ _ (agree_union_left h), ihb _ _ (agree_union_right h)]
+  | varcov n a b iha ihb =>
+    intro ρ1 ρ2 h; simp only [eval]; rw [iha _ _ (agree_union_left h), ihb _ _ (agree_union_right h)]
 
 /-- the whole linearization depends on the input only through the keys read -/
 theorem lin_congr_env (e : Ex K) (wm : Bool) :
@@ -97,6 +101,10 @@ theorem lin_congr_env (e : Ex K) (wm : Bool) :
   | quad d a iha => intro ρ1 ρ2 h; simp only [lin]; rw [iha _ _ h]
   | gauss data icov a iha => intro ρ1 ρ2 h; simp only [lin]; rw [iha _ _ h]
   | const en d v => intro ρ1 ρ2 h; rfl
+  | bil m na nb T a b iha ihb =>
+    intro ρ1 ρ2 h; simp only [lin]; rw [iha _ _ (agree_union_left h), ihb _ _ (agree_union_right h)]
+  | varcov n a b iha ihb =>
+    intro ρ1 ρ2 h; simp only [lin]; rw [iha _ _ (agree_union_left h), ihb _ _ (agree_union_right h)]
 
 /-- the Jacobian reads its tangent only on the keys read -/
 theorem jac_congr (e : Ex K) (wm : Bool) :
@@ -124,6 +132,10 @@ theorem jac_congr (e : Ex K) (wm : Bool) :
   | quad d a iha => intro ρ h1 h2 h; simp only [lin]; rw [iha _ _ _ h]
   | gauss data icov a iha => intro ρ h1 h2 h; simp only [lin]; rw [iha _ _ _ h]
   | const en d v => intro ρ h1 h2 h; rfl
+  | bil m na nb T a b iha ihb =>
+    intro ρ h1 h2 h; simp only [lin]; rw [iha _ _ _ (agree_union_left h), ihb _ _ _ (agree_union_right h)]
+  | varcov n a b iha ihb =>
+    intro ρ h1 h2 h; simp only [lin]; rw [iha _ _ _ (agree_union_left h), ihb _ _ _ (agree_union_right h)]
 
 theorem allConst_agree {ck : List String} {d : Dom} (h : allConst ck d = true) (cs ρ : MVal K) :
     AgreeOn d (insertC ck cs ρ) cs := by
@@ -182,6 +194,8 @@ theorem pe_target (ck : List String) (cs : MVal K) (e : Ex K) : (pe ck cs e).dom
   | quad d a iha => simp only [pe]; exact coll _ _ (by simp only [Ex.dom])
   | gauss data icov a iha => simp only [pe]; exact coll _ _ (by simp only [Ex.dom])
   | const en d v => rfl
+  | bil m na nb T a b iha ihb => simp only [pe]; exact coll _ _ (by simp only [Ex.dom])
+  | varcov n a b iha ihb => simp only [pe]; exact coll _ _ (by simp only [Ex.dom])
 
 /-- **value**: the simplified operator evaluates to the original with the constants inserted
     (all trees, all constant sets, all inputs, every number type) -/
@@ -225,6 +239,8 @@ theorem pe_sound (ck : List String) (cs : MVal K) (e : Ex K) :
   | gauss data icov a iha =>
     intro ρ; simp only [pe]; exact coll _ _ (fun _ _ ρ => by simp only [eval, iha, pe_target]) ρ
   | const en d v => intro ρ; rfl
+  | bil m na nb T a b iha ihb => intro ρ; simp only [pe]; exact coll _ _ (fun _ _ ρ => by simp only [eval, iha, ihb]) ρ
+  | varcov n a b iha ihb => intro ρ; simp only [pe]; exact coll _ _ (fun _ _ ρ => by simp only [eval, iha, ihb]) ρ
 
 /-- `EnergyAdapter(position, op, constants)`: the simplified operator at the position without the constant keys
     has the value of `op` at the full position -/
@@ -235,6 +251,32 @@ theorem energyAdapter_constants (ck : List String) (e : Ex K) (pos : MVal K) :
   funext k
   simp only [insertC]
   split <;> simp_all
+
+/-- **constant output part**: `simplify_for_constant_input` never returns a constant output (`c_out is None`) — every base
+    case returns `None`, and `ConstCollector.add/mult` only ever see `None`; hence the overwrite in `ConstCollector.add`
+    (DESIGN.md §6 #10) is unreachable.  The harness asserts `c_out is None` on every real case. -/
+theorem cout_none (ck : List String) (cs : MVal K) (e : Ex K) : cout ck cs e = none := by
+  induction e with
+  | var k n => rfl
+  | const en d v => rfl
+  | add a b iha ihb => simp only [cout, iha, ihb, CC.add, CC.empty]; split <;> rfl
+  | sub a b iha ihb => simp only [cout, iha, ihb, CC.add, CC.empty]; split <;> rfl
+  | mul a b iha ihb => simp only [cout, iha, ihb, CC.mult, CC.empty]; split <;> rfl
+  | vdot a b iha ihb => simp only [cout, iha, ihb, CC.mult, CC.empty]
+  | bil m na nb T a b iha ihb => simp only [cout, iha, ihb, CC.mult, CC.empty]
+  | varcov n a b iha ihb => simp only [cout, iha, ihb, CC.add, CC.empty]
+  | scale c a iha => simp only [cout, iha]
+  | addc c neg a iha => simp only [cout, iha]
+  | mulc d a iha => simp only [cout, iha]
+  | ptw f p a iha => simp only [cout, iha]
+  | lin m n rows a iha => simp only [cout, iha]
+  | sum a iha => simp only [cout, iha]
+  | getKey k a iha => simp only [cout, iha]
+  | putKey k a iha => simp only [cout, iha]
+  | chain f g ihf ihg => simp only [cout, ihg]
+  | sqnorm a iha => simp only [cout, iha]
+  | quad d a iha => simp only [cout, iha]
+  | gauss data icov a iha => simp only [cout, iha]
 
 /-- `make_partial_var`: adjoint / gradient components of the constant keys vanish, identically -/
 theorem partialVar_grad_zero (e : Ex K) (ρ y : MVal K) (ck : List String) (wm : Bool) (k : String) (i : Nat)
@@ -278,6 +320,8 @@ theorem jac_zero (e : Ex ℝ) (wm : Bool) : ∀ ρ : MVal ℝ, (lin e ρ wm).jac
   | quad d a iha => intro ρ; funext k i; simp [lin, iha, single, dsum_zero]
   | gauss data icov a iha => intro ρ; funext k i; simp [lin, iha, single, dsum_zero]
   | const en d v => intro ρ; rfl
+  | bil m na nb T a b iha ihb => intro ρ; funext k i; simp [lin, iha, ihb, single, rsum_zero]
+  | varcov n a b iha ihb => intro ρ; funext k i; simp [lin, iha, ihb, single, rsum_zero]
 
 theorem allConst_agree_zero {ck : List String} {d : Dom} (h : allConst ck d = true) (hh : MVal ℝ) :
     AgreeOn d (zeroC ck hh) (fun _ _ => 0) := by
@@ -363,6 +407,12 @@ theorem pe_jac (ck : List String) (cs : MVal ℝ) (e : Ex ℝ) :
     intro ρ wm h; simp only [pe]
     exact coll _ _ (fun _ _ ρ wm h => by simp only [lin, C03.lin_val, pe_sound, iha, pe_target]) ρ wm h
   | const en d v => intro ρ wm h; rfl
+  | bil m na nb T a b iha ihb =>
+    intro ρ wm h; simp only [pe]
+    exact coll _ _ (fun _ _ ρ wm h => by simp only [lin, C03.lin_val, pe_sound, iha, ihb]) ρ wm h
+  | varcov n a b iha ihb =>
+    intro ρ wm h; simp only [pe]
+    exact coll _ _ (fun _ _ ρ wm h => by simp only [lin, C03.lin_val, pe_sound, iha, ihb]) ρ wm h
 
 /-- `make_partial_var` and `simplify_for_constant_input` agree: linearising the original at the full position with
     the 0/1 block Jacobian prepended gives the Jacobian of the simplified operator -/
